@@ -233,6 +233,26 @@ func (st *state) checkEnc(long bool, v int64) {
 		}
 	}
 
+	// --- WriteTo into a writer with room for k < Len() bytes: the count is what reached the writer
+	for k := 0; k < len(ref); k++ {
+		st.wr.lim.sink.n, st.wr.lim.sink.calls, st.wr.lim.room = 0, 0, k
+		var wn int64
+		var werr error
+		if long {
+			wn, werr = xl.WriteTo(&st.wr.lim)
+		} else {
+			wn, werr = xi.WriteTo(&st.wr.lim)
+		}
+		st.trans++
+		got := st.wr.lim.sink.n
+		if wn != int64(got) {
+			st.failf("enc/"+tn+".WriteTo/writer=full-after-k-bytes/count-differs-from-bytes-written", "%s(%d).WriteTo(writer with room for %d of %d bytes) returned n=%d, err=%v but the writer received %d bytes", tn, v, k, len(ref), wn, werr, got)
+		}
+		if werr == nil {
+			st.failf("enc/"+tn+".WriteTo/writer=full-after-k-bytes/success-with-a-truncated-encoding", "%s(%d).WriteTo(writer with room for %d of %d bytes) returned a nil error; the writer received %d bytes", tn, v, k, len(ref), got)
+		}
+	}
+
 	// --- decode the reference bytes (== the emitted bytes unless a failure was already recorded),
 	// followed by a tail, from every source kind. The eof-with-last-byte source gets no tail: it
 	// ends exactly at the end of the encoding and reports io.EOF together with the last byte
